@@ -15,6 +15,7 @@ mod compare;
 mod c03;
 mod canon;
 mod c19;
+mod serde_typed;
 mod serde_value;
 
 use common::Args;
@@ -42,6 +43,7 @@ fn main() {
         "c17" => (serde_value::generate_c17, serde_value::eval_c17),
         "c18" => (serde_value::generate_c18, serde_value::eval_c18),
         "c19" => (c19::generate, c19::eval),
+        "c16" => (serde_typed::generate, serde_typed::eval),
         other => {
             eprintln!("unknown family {other}");
             std::process::exit(2);
